@@ -82,7 +82,9 @@ def run_programs(ck, sources, tag, ninputs=8):
                 rec["params"] = field(forms, "params")
                 rec["ret"] = field(forms, "ret")
                 semjobs.append(f"(sem q{i} {ast} {inss})")
+                semjobs.append(f"(tsem t{i} {ast} {inss})")
                 rec["semid"] = f"q{i}"
+                rec["tsemid"] = f"t{i}"
         elif r.startswith("(compile crash") or "abort" in r or "timeout" in r:
             rec["status"] = "crash"
             forms = split_top(r)
@@ -105,6 +107,7 @@ def run_programs(ck, sources, tag, ninputs=8):
                 forms = forms[1:]
             rec["model"] = forms
             rec["model_raw"] = m[:300]
+            rec["tsem"] = split_top(ml.get(rec["tsemid"], "(no-result)"))
     return recs
 
 
@@ -155,6 +158,13 @@ def compare(recs):
                     stats["model_ok"] += 1
                 elif m.startswith("(panic"):
                     stats["model_panic"] += 1
+                ts = rec.get("tsem", [])
+                if k < len(ts):
+                    stats["tsem_compared"] = stats.get("tsem_compared", 0) + 1
+                    if ts[k] in ("(crash)", "(nofuel)", "(no-result)") or ts[k].startswith("(model-crash"):
+                        stats["tsem_outside"] = stats.get("tsem_outside", 0) + 1
+                    elif ts[k] != r:
+                        issues.append((rec, cfg, k, "tsem-mismatch", ts[k], r))
                 kind = classify(m, r)
                 if kind == "outside-model":
                     stats["outside_model"] += 1
